@@ -40,7 +40,7 @@ var (
 // AllKinds lists the call templates of C01.
 var AllKinds = []string{"Mkdir", "MkdirAll", "Open", "Create", "WriteFile", "ReadFile", "CreateTemp", "MkdirTemp",
 	"Remove", "RemoveAll", "Rename", "Link", "Symlink", "Readlink", "Truncate", "Chmod", "Chown", "Lchown", "Chtimes",
-	"Chdir", "Getwd", "Stat", "Lstat", "ReadDir", "EvalSymlinks", "WalkDir"}
+	"Chdir", "Getwd", "Stat", "Lstat", "ReadDir", "EvalSymlinks", "WalkDir", "OpenChdir"}
 
 // Paths returns the absolute path universe below base (names a, b, c; depth 3)
 // plus the special operands.
@@ -78,7 +78,7 @@ func (c Config) kinds() []string {
 		case !c.Symlinks && (k == "Symlink" || k == "Readlink" || k == "EvalSymlinks"):
 		case c.NoChown && (k == "Chown" || k == "Lchown"):
 		case c.NoTemp && (k == "CreateTemp" || k == "MkdirTemp"):
-		case c.NoChdir && k == "Chdir":
+		case c.NoChdir && (k == "Chdir" || k == "OpenChdir"):
 		default:
 			r = append(r, k)
 		}
@@ -173,6 +173,9 @@ func (c Config) Draw(t *rapid.T) Inst {
 		// where the working directory is afterwards is part of the outcome (a final symbolic
 		// link is resolved: Getwd gives the physical path)
 		return Inst{{K: k, P: path("p")}, {K: "Getwd"}, {K: "Stat", P: "."}}
+	case "OpenChdir":
+		// the working directory set through an open directory: wherever and however it was opened
+		return Inst{{K: "Open", P: path("p"), Flag: os.O_RDONLY, H: 0}, {K: "FChdir", H: 0}, {K: "Getwd"}, {K: "Stat", P: "."}, {K: "FClose", H: 0}}
 	case "Glob":
 		pat := rapid.SampledFrom([]string{"*", "a*", "?", "*/*", "[ab]", "a/*", "b"}).Draw(t, "pat")
 		dir := rapid.SampledFrom(abs).Draw(t, "gdir")
@@ -282,6 +285,10 @@ func (c Config) All(reduced, withRel bool) []Inst {
 		case "Chdir":
 			for _, p := range paths {
 				r = append(r, Inst{{K: k, P: p}, {K: "Getwd"}, {K: "Stat", P: "."}})
+			}
+		case "OpenChdir":
+			for _, p := range paths {
+				r = append(r, Inst{{K: "Open", P: p, Flag: os.O_RDONLY, H: 0}, {K: "FChdir", H: 0}, {K: "Getwd"}, {K: "Stat", P: "."}, {K: "FClose", H: 0}})
 			}
 		case "WalkDir":
 			for _, p := range paths {
